@@ -262,11 +262,6 @@ def law_holds(c):
     return None
 
 
-def linearity_swapped(c):
-    I, f, g, q = c["items"], op(c["f"]), op(c["g"]), c["q"]
-    return all(q[f(a, b)] == g(q[b], q[a]) for a in I for b in I)
-
-
 def sr_failed_clauses(c, r):
     """names of semiring-law clauses that fail on the implementation's values"""
     v = r.get("v")
@@ -311,10 +306,6 @@ def finding_key(c, r):
         return None
     if c["k"] == "sr" and c["ty"] == "cost" and c.get("profile") == "release" and cost_overflows(c):
         return "Cost/mul/release-overflow-wraps"
-    if c["k"] == "linearity" and "r" in r:
-        ok = r["r"] == "ok"
-        if ok != law_holds(c) and ok == linearity_swapped(c):
-            return "linearity/g-args-swapped"
     if c["k"] == "sr" and c["ty"] == "confidence" and sr_failed_clauses(c, r) == ["mul-assoc"]:
         return "ConfidenceScore/mul/not-associative"
     return None
@@ -833,10 +824,7 @@ THEOREMS = [
     "C09_single_function_properties",
     "C09_associativity_eq",
     "C09_distributive_eq",
-    "C09_linearity_tests_swapped_law",
-    "C09_linearity_partial",
-    "C09_linearity_refuted",
-    "C09_linearity_accepts_nonlinear_refuted",
+    "C09_linearity",
     "C09_bilinearity",
     "C09_model_satisfies_executable_form",
     "C09_deciders_decide_the_laws",
